@@ -5,7 +5,7 @@ from ..model import AnalysisError, own_nodes, norm_src
 from ..peval import DictV, FuncV, Const, ClassV, CallV, is_const
 from ..report import RuleResult
 from ..cfg import CFG
-from ..util import key_of, src, call_name
+from ..util import key_of, src, call_name, assign_pairs
 from .. import rx
 from . import tokens_lang as TL
 
@@ -518,6 +518,66 @@ def rule_render(ctx):
                     '%s does not assign attr[\'expr\'] on every path: the node '
                     'id / exported text of such a token is missing' % m.qualname,
                     file=m.module.rel, function=m.qualname, line=m.lineno)
+    # a token that renders its argument tokens renders all of them, in order
+    for m in overrides:
+        va = m.vararg
+        if not va or not any(isinstance(n, ast.Name) and n.id == va
+                             for n in own_nodes(m)):
+            continue
+        rr.instances += 1
+        full = {va}
+        lossy = None
+        for _round in range(3):
+            for t, v, st in assign_pairs(m):
+                if not isinstance(t, ast.Name):
+                    continue
+                src_names = {x.id for x in ast.walk(v) if isinstance(x, ast.Name)}
+                if not (src_names & full):
+                    continue
+                if isinstance(v, (ast.ListComp, ast.GeneratorExp)):
+                    if any(g.ifs for g in v.generators):
+                        lossy = lossy or (st, 'a filtering comprehension')
+                    else:
+                        full.add(t.id)
+                elif isinstance(v, ast.Call) and isinstance(v.func, ast.Name) \
+                        and v.func.id in ('list', 'tuple', 'map'):
+                    full.add(t.id)
+                elif isinstance(v, ast.Call) and isinstance(v.func, ast.Name) \
+                        and v.func.id == 'filter':
+                    lossy = lossy or (st, 'filter()')
+                elif isinstance(v, ast.Subscript) and isinstance(
+                        v.slice, ast.Slice) and isinstance(v.value, ast.Name) \
+                        and v.value.id in full:
+                    lossy = lossy or (st, 'a slice')
+        for n in own_nodes(m):
+            if isinstance(n, ast.Call) and isinstance(n.func, ast.Attribute) \
+                    and n.func.attr in ('pop', 'remove', 'clear') and \
+                    isinstance(n.func.value, ast.Name) and \
+                    n.func.value.id in full:
+                lossy = lossy or (n, '`%s`' % norm_src(n))
+            if isinstance(n, ast.Delete) and any(
+                    isinstance(x, ast.Name) and x.id in full
+                    for t in n.targets for x in ast.walk(t)):
+                lossy = lossy or (n, '`%s`' % norm_src(n))
+            if isinstance(n, (ast.ListComp, ast.GeneratorExp)) and any(
+                    g.ifs and any(isinstance(x, ast.Name) and x.id in full
+                                  for x in ast.walk(g.iter))
+                    for g in n.generators):
+                lossy = lossy or (n, 'a filtering comprehension')
+        if lossy is None:
+            rr.ok('%s renders every argument token, in order (no filter, '
+                  'slice or removal between *%s and the text)' % (
+                      m.qualname, va), '%s:%d' % (m.module.rel, m.lineno))
+        else:
+            n, how = lossy
+            rr.fail(key_of(m, 'argument tokens dropped from the rendering'),
+                    '%s builds the expression text from its argument tokens '
+                    'through %s: arguments can disappear from the text, so '
+                    'two different calls (e.g. with and without trailing '
+                    'empty arguments) get the same node identifier and the '
+                    'exported text parses to a different tree' % (
+                        m.qualname, how), file=m.module.rel,
+                    function=m.qualname, line=n.lineno)
     # operator templates
     f = p.func(OP, 'Operator.set_expr')
     templates = {}
